@@ -50,6 +50,9 @@ def classify(sp, Ir=None, Ie=None, full=None):
     return None
 
 
+SINGLE_COUNT = [0]
+
+
 def check_space(chk, drv, sp, stats, ndata):
     from pygyro.splines.splines import Spline1D
     from pygyro.splines.spline_interpolators import SplineInterpolator1D
@@ -91,6 +94,21 @@ def check_space(chk, drv, sp, stats, ndata):
         chk.fail('C09:weights-aliased', 'get_quadrature_coefficients returns different weights after the vector returned by an earlier call was '
                  'modified in place by its owner', case, expected=[float(x) for x in w], actual=[float(x) for x in again2])
         return
+    # ... nor on a single-precision element type named at construction (the weights are the double-precision ones: the matrix is built
+    # and factorised in double precision whatever the data will be); one spelling per clamped space, by position
+    if not sp.per:
+        SINGLE_COUNT[0] += 1
+        t32 = [np.float32, 'float32', np.complex64][SINGLE_COUNT[0] % 3]
+        try:
+            w32 = np.asarray(SplineInterpolator1D(sp.basis, t32).get_quadrature_coefficients())
+        except Exception as e:  # noqa: BLE001
+            chk.fail('C09:raises', 'get_quadrature_coefficients of an interpolator built with dtype=%r raised %s: %s' % (t32, type(e).__name__, e), case)
+            return
+        if w32.shape != w.shape or not np.all(np.abs(w32 - w) <= 1e-12 * float(np.abs(w).max())):
+            chk.fail('C09:weights-single-precision-interpolator', 'the quadrature weights of an interpolator built with dtype=%r differ from the '
+                     'double-precision weights' % (t32,), dict(case, dtype=str(t32)), expected=[float(x) for x in w], actual=[complex(x) for x in np.ravel(w32)])
+            return
+        chk.count('weights of interpolators built for single-precision data')
     # the weights do not depend on the element type the interpolator was built for (the quasi-neutrality solver builds a complex one)
     if not sp.per:
         try:
@@ -237,6 +255,16 @@ def check_space(chk, drv, sp, stats, ndata):
                 stats['qres'] = max(stats.get('qres', 0.0), float(abs(qres[j]) / (EPS * b)))
             if abs(qres[j]) > F(CN) * EPS * b:
                 chk.diff('transposed-solve contract: residual of column %d' % j, case, float(qres[j]), float(b))
+                if abs(qres[j]) > F(10 ** 6) * EPS * b:
+                    # far beyond what any backward-stable solve leaves: the weights belong to another matrix.  Failing input: the data u
+                    # of this case, interpolated EXACTLY (fractions, the exact collocation matrix) and integrated exactly
+                    cstar = H.solve_exact([list(r) for r in Mo], H.frs(u))
+                    if cstar is not None:
+                        cfull = list(cstar) + (list(cstar[:p]) if sp.per else [])
+                        iex, _ = H.exact_spline_integral(sp, cfull[:len(H.exact_basis_integrals(sp))])
+                        if abs(F(wu) - iex) > F(1, 10 ** 6) * (wus + abs(iex)):
+                            fail('C09:weights-vs-exact-interpolant', 'weights·data is not the integral of the spline that interpolates the data '
+                                 '(interpolated exactly with the exact collocation matrix)', float(iex), wu, extra={'data': [float(x) for x in u]})
                 break
         if not common.close(wu, F(mo['wu']), F(mo['wu_scale']), 64):
             chk.diff('weights·data', case, mo['wu'], wu)
@@ -287,6 +315,12 @@ def run(chk):
             pdeg = [2, 3, 4, 5][k]
             w_ = np.array([1.0 + 0.5 * (j % 3) for j in range(pdeg + 5)]) if k % 2 else np.ones(pdeg + 5)
             todo.append(H.Sp(pdeg, True, 'random' if k % 2 else 'uniform', a_ + L_ * np.concatenate([[0.0], np.cumsum(w_)]) / w_.sum()))
+        # locally refined / strongly graded PERIODIC grids (neighbouring cells that differ by factors 5-50): the interpolation point of
+        # basis function i is then not in "its" cell i, and the cut functions at the seam have very different supports
+        for k, pdeg in enumerate([2, 4, 5, 3, 4]):
+            w_ = np.array([[1, 1, 0.1, 0.1, 0.1, 1, 5, 1, 0.2, 3], [4, 0.2, 0.2, 6, 0.1, 2, 9, 0.3], [0.1, 3, 0.1, 3, 0.1, 3, 0.1, 3, 7],
+                           [5, 1, 0.2, 0.04, 0.2, 1, 5], [0.05, 0.05, 8, 0.05, 8, 2, 0.4, 0.4, 10, 1, 1]][k], dtype=float)
+            todo.append(H.Sp(pdeg, True, 'random', [-1.0, 0.0, 0.3, 2.0, -7.5][k] + np.concatenate([[0.0], np.cumsum(w_)])))
         # knot vectors of whole numbers handed over as integer arrays (hand-built with np.arange): the same spaces as with float knots
         for k in range(chk.n(12, 60)):
             pdeg = 3 if k % 2 == 0 else rng.randint(1, 5)
